@@ -523,4 +523,211 @@ theorem isZoneMasterB_of_master (hz : ∀ z e, e ∈ T.eps self z → T.zoneOf e
 
 end Sent
 
+
+/-! ### the network -/
+
+theorem mem_emit {T : Topo} {s : Ep} {o : Origin} {oz : Zone} {msg : Msg} :
+    msg ∈ emit T s o oz ↔ msg.to ∈ (relay T s o (some oz) true).sent ∧ msg.frm = s ∧ msg.originZone = o.fromZone := by
+  unfold emit
+  simp only [List.mem_map]
+  constructor
+  · rintro ⟨e, he, rfl⟩
+    exact ⟨he, rfl, rfl⟩
+  · rintro ⟨h1, h2, h3⟩
+    refine ⟨msg.to, h1, ?_⟩
+    cases msg
+    simp_all
+
+/-- what one delivery does -/
+theorem deliver_cases (T : Topo) (oz : Zone) (n : Net) (i : Nat) :
+    deliver T oz n i = n ∨
+    ∃ msg, msg ∈ n.inflight ∧
+      ((accept T oz (originOf T msg) = true ∧
+        (deliver T oz n i).inflight = n.inflight.eraseIdx i ++ emit T msg.to (originOf T msg) oz ∧
+        (deliver T oz n i).processed = n.processed ++ [msg.to] ∧
+        (deliver T oz n i).discarded = n.discarded) ∨
+       (accept T oz (originOf T msg) = false ∧
+        (deliver T oz n i).inflight = n.inflight.eraseIdx i ∧
+        (deliver T oz n i).processed = n.processed ∧
+        (deliver T oz n i).discarded = n.discarded ++ [msg])) := by
+  unfold deliver
+  cases h : n.inflight[i]? with
+  | none => left; rfl
+  | some msg =>
+    right
+    refine ⟨msg, List.mem_of_getElem? h, ?_⟩
+    by_cases ha : accept T oz (originOf T msg) = true
+    · left; simp [ha]
+    · right
+      have : accept T oz (originOf T msg) = false := by simpa using ha
+      simp [this]
+
+/-- induction over the deliveries of an execution -/
+theorem run_induction {T : Topo} {oz : Zone} (P : Net → Prop) (hstep : ∀ n i, P n → P (deliver T oz n i)) :
+    ∀ (sched : List Nat) (n : Net), P n → P (run T oz n sched) := by
+  intro sched
+  induction sched with
+  | nil => intro n h; exact h
+  | cons i is ih =>
+    intro n h
+    unfold run
+    rw [List.foldl_cons]
+    exact ih _ (hstep n i h)
+
+
+section Net
+variable {T : Topo}
+
+/-- one relay step keeps recipients entitled -/
+theorem emit_entitled (wf : NetWF T) {orig s : Ep} {o : Origin} {oz : Zone} {msg : Msg}
+    (hs : T.isGlobal oz = true → Anc T (T.zoneOf s) (T.zoneOf orig)) (hm : msg ∈ emit T s o oz) :
+    NetEntitled T (T.zoneOf orig) oz (T.zoneOf msg.to) := by
+  obtain ⟨hto, _, _⟩ := mem_emit.mp hm
+  unfold NetEntitled
+  by_cases hg : T.isGlobal oz = true
+  · simp only [hg, if_true]
+    have := (sent_zone_of wf.toDetached (wf.zone_of_mem s) hto).2
+    simp only [targetZone, hg, if_true] at this
+    rcases this with h | ⟨_, h⟩
+    · rw [h]; exact hs hg
+    · exact Anc.step h (hs hg)
+  · simp only [hg, Bool.false_eq_true, if_false]
+    have := only_entitledB wf.toDetached (wf.zone_of_mem s) hto
+    unfold entitledB at this
+    simp only [targetZone, hg, Bool.false_eq_true, if_false] at this
+    exact this
+
+/-- the invariant behind `net_only_entitled` -/
+structure EntInv (T : Topo) (orig : Ep) (oz : Zone) (n : Net) : Prop where
+  processed : ∀ e ∈ n.processed, e = orig ∨ NetEntitled T (T.zoneOf orig) oz (T.zoneOf e)
+  inflight : ∀ msg ∈ n.inflight, NetEntitled T (T.zoneOf orig) oz (T.zoneOf msg.to)
+  discarded : ∀ msg ∈ n.discarded, NetEntitled T (T.zoneOf orig) oz (T.zoneOf msg.to)
+
+theorem entInv_start (wf : NetWF T) (orig : Ep) (oz : Zone) : EntInv T orig oz (start T orig oz) := by
+  refine ⟨?_, ?_, ?_⟩
+  · intro e he
+    simp [start] at he
+    exact Or.inl he
+  · intro msg hm
+    exact emit_entitled wf (fun _ => Anc.refl _) hm
+  · intro msg hm
+    simp [start] at hm
+
+theorem entInv_step (wf : NetWF T) (orig : Ep) (oz : Zone) (n : Net) (i : Nat) (h : EntInv T orig oz n) :
+    EntInv T orig oz (deliver T oz n i) := by
+  rcases deliver_cases T oz n i with heq | ⟨msg, hmem, ⟨_, hi, hp, hd⟩ | ⟨_, hi, hp, hd⟩⟩
+  · rw [heq]; exact h
+  · have hto := h.inflight msg hmem
+    refine ⟨?_, ?_, ?_⟩
+    · intro e he
+      rw [hp] at he
+      rcases List.mem_append.mp he with he | he
+      · exact h.processed e he
+      · simp at he; subst he; exact Or.inr hto
+    · intro m' hm'
+      rw [hi] at hm'
+      rcases List.mem_append.mp hm' with hm' | hm'
+      · exact h.inflight m' (List.mem_of_mem_eraseIdx hm')
+      · apply emit_entitled wf _ hm'
+        intro hg
+        have := hto
+        unfold NetEntitled at this
+        simpa [hg] using this
+    · intro m' hm'
+      rw [hd] at hm'
+      exact h.discarded m' hm'
+  · refine ⟨?_, ?_, ?_⟩
+    · intro e he; rw [hp] at he; exact h.processed e he
+    · intro m' hm'
+      rw [hi] at hm'
+      exact h.inflight m' (List.mem_of_mem_eraseIdx hm')
+    · intro m' hm'
+      rw [hd] at hm'
+      rcases List.mem_append.mp hm' with hm' | hm'
+      · exact h.discarded m' hm'
+      · simp at hm'; subst hm'; exact h.inflight _ hmem
+
+/-- the invariant behind `net_no_discard` (object of an ordinary zone) -/
+structure AccInv (T : Topo) (oz : Zone) (n : Net) : Prop where
+  inflight : ∀ msg ∈ n.inflight, isChildOf T oz (T.zoneOf msg.to) = true ∧ isChildOf T oz (T.zoneOf msg.frm) = true ∧
+    ∀ z, msg.originZone = some z → isChildOf T oz z = true
+  discarded : n.discarded = []
+
+theorem accept_of_accInv {oz : Zone} {msg : Msg}
+    (h : isChildOf T oz (T.zoneOf msg.frm) = true ∧ ∀ z, msg.originZone = some z → isChildOf T oz z = true) :
+    accept T oz (originOf T msg) = true ∧ ∀ z, (originOf T msg).fromZone = some z → isChildOf T oz z = true := by
+  unfold accept originOf canAccess
+  by_cases hne : (T.zoneOf msg.frm != T.zoneOf msg.to) = true
+  · simp only [hne, if_true]
+    refine ⟨by simp [h.1], ?_⟩
+    intro z hz
+    cases hz
+    exact h.1
+  · have : (T.zoneOf msg.frm != T.zoneOf msg.to) = false := by simpa using hne
+    simp only [this, Bool.false_eq_true, if_false]
+    refine ⟨?_, h.2⟩
+    cases hoz : msg.originZone with
+    | none => rfl
+    | some z => simp [h.2 z hoz]
+
+theorem emit_accInv (wf : NetWF T) {s : Ep} {o : Origin} {oz : Zone} (hg : T.isGlobal oz = false)
+    (hs : isChildOf T oz (T.zoneOf s) = true) (ho : ∀ z, o.fromZone = some z → isChildOf T oz z = true) :
+    ∀ msg ∈ emit T s o oz, isChildOf T oz (T.zoneOf msg.to) = true ∧ isChildOf T oz (T.zoneOf msg.frm) = true ∧
+      ∀ z, msg.originZone = some z → isChildOf T oz z = true := by
+  intro msg hm
+  obtain ⟨hto, hfrm, hoz⟩ := mem_emit.mp hm
+  refine ⟨?_, by rw [hfrm]; exact hs, by rw [hoz]; exact ho⟩
+  have := only_entitledB wf.toDetached (wf.zone_of_mem s) hto
+  unfold entitledB at this
+  simp only [targetZone, hg, Bool.false_eq_true, if_false] at this
+  exact this
+
+end Net
+
+/-- every execution from `n` satisfies `P` at every state and is quiescent after at most `k` deliveries
+    (exhaustive exploration of all delivery orders; used for the finite families of the `…_partial` theorems) -/
+def exploreAll (T : Topo) (oz : Zone) (P : Net → Bool) : Nat → Net → Bool
+  | 0, n => P n && n.inflight.isEmpty
+  | k + 1, n => P n && (List.range n.inflight.length).all (fun i => exploreAll T oz P k (deliver T oz n i))
+
+theorem deliver_out_of_range (T : Topo) (oz : Zone) (n : Net) (i : Nat) (h : n.inflight.length ≤ i) :
+    deliver T oz n i = n := by
+  unfold deliver
+  rw [List.getElem?_eq_none h]
+
+theorem run_quiescent (T : Topo) (oz : Zone) (n : Net) (h : n.inflight = []) : ∀ sched, run T oz n sched = n := by
+  intro sched
+  induction sched with
+  | nil => rfl
+  | cons i is ih =>
+    unfold run at ih ⊢
+    rw [List.foldl_cons, deliver_out_of_range T oz n i (by simp [h])]
+    exact ih
+
+theorem exploreAll_sound (T : Topo) (oz : Zone) (P : Net → Bool) : ∀ (k : Nat) (n : Net),
+    exploreAll T oz P k n = true → ∀ sched, P (run T oz n sched) = true := by
+  intro k
+  induction k with
+  | zero =>
+    intro n h sched
+    unfold exploreAll at h
+    simp only [Bool.and_eq_true, List.isEmpty_iff] at h
+    rw [run_quiescent T oz n h.2]
+    exact h.1
+  | succ k ih =>
+    intro n h sched
+    unfold exploreAll at h
+    simp only [Bool.and_eq_true, List.all_eq_true, List.mem_range] at h
+    induction sched with
+    | nil => exact h.1
+    | cons i is ih2 =>
+      by_cases hi : i < n.inflight.length
+      · have := ih (deliver T oz n i) (h.2 i hi) is
+        unfold run at this ⊢
+        rw [List.foldl_cons]
+        exact this
+      · unfold run at ih2 ⊢
+        rw [List.foldl_cons, deliver_out_of_range T oz n i (by omega)]
+        exact ih2
+
 end Icinga.C11
